@@ -3,7 +3,7 @@ C12 driver: parses the case lines that harness/c12/c12.c executes against the re
 (`model` mode), or parses an implementation trace into events and runs the specification oracle (`judge` mode).
 
 Case lines:   script u<k> =<text> <op>;<op>...   |  conn  |  send u<k> <data>  |  close u<k>  |  cycle  |  run
-ops:          kick,u<k> | drop,u<k> | ecmd,u<k>,<text> | gc | it
+ops:          kick,u<k> | drop,u<k> | ecmd,u<k>,<text> | gc | it | itn
 Texts in traces are `=` followed by [a-z0-9] literally and %xx for every other byte.
 -/
 import NV.Common.Proto
@@ -107,6 +107,7 @@ def parseOp (s : String) : Option Op :=
   | ["ecmd", u, t] => do some (.ecmd (← parseUid u) t.toList)
   | ["gc"] => some .gc
   | ["it"] => some .it
+  | ["itn"] => some .it      -- input_to with I_NOECHO: the echo flag does not touch scheduling
   | _ => none
 
 structure Parsed where
@@ -155,9 +156,6 @@ def renderViol : Viol → String
   | .twice u n => s!"twice user=u{u} cycle={n}: second buffered command of one user in one backend cycle"
   | .starved u n => s!"starved user=u{u} cycle={n}: complete command waiting, user connected, not served"
   | .fifo u t => s!"fifo user=u{u} text={enc t}: executed command is not the oldest pending input"
-  | .starvedRaw u n => s!"starved-after-getchar user=u{u} cycle={n}: a line typed while get_char() was pending is not served"
-  | .fifoRaw u t => s!"fifo-after-getchar user=u{u} text={enc t}: input typed while get_char() was pending is not framed into lines"
-  | .idleWaitRaw n u => s!"idle-wait-after-getchar cycle={n} user=u{u}: backend blocks in poll although a line typed while get_char() was pending is buffered"
   | .idleWait n u => s!"idle-wait cycle={n} user=u{u}: backend blocks in poll although a complete command is buffered"
   | .efun t x => s!"efun user=u{t} text={enc x}: command() was not executed at once"
   | .outside u => s!"outside user=u{u}: buffered command executed outside a backend cycle"
